@@ -1,14 +1,81 @@
-"""C19 - zero-amplitude modulation == static RF; applied modulation recorded exactly once per step"""
+"""C19 - zero-amplitude modulation == static RF; applied modulation recorded exactly once per step (API level); the /RFKicks dataset of the real binary"""
+import math
+import os
+import sys
+
+import vlib
 from checks import _api
+sys.path.insert(0, os.path.join(vlib.VERIF, "proc"))
+import pl  # noqa: E402
 LEVEL = "model_checking"
+C = 2.99792458e8
+
+
+def process_level(res, tier):
+    """the real binary: one /RFKicks row per executed step for every cadence, rows = (synchronous phase + A sin(2 pi f_mod dt k), 1)
+    with A, f_mod, dt derived from the options as documented (degrees, Hz, steps per synchrotron period or per revolution)"""
+    exe = pl.build.build_bin("plain")
+    wd = pl.workdir("c19")
+    fs, frev = 45000.0, 9e6
+    cases = []
+    for rf in ("linear", "sin"):
+        for per in ("Ts", "rev"):
+            for outstep in ((0, 1, 3, 4, 12, 13) if tier == "thorough" else (0, 1, 3, 12)):
+                for amp, fmod in (((1.0, 4e4), (0.3, 1.7e5)) if tier == "thorough" else ((1.0, 4e4),)):
+                    cases.append((rf, per, outstep, amp, fmod))
+    nsteps = 12
+    steps_per_ts = 16
+
+    def do(c):
+        rf, per, outstep, amp, fmod = c
+        a = ["-s", 16, "-T", nsteps / steps_per_ts, "-n", outstep, "-G", 0, "-f", fs, "--padding", 2, "--LinearRF", "true" if rf == "linear" else "false",
+             "--RFPhaseModAmplitude", amp, "--RFPhaseModFrequency", fmod]
+        a += ["-N", steps_per_ts] if per == "Ts" else ["--StepsPerRevolution", steps_per_ts * fs / frev, "-N", 1000]
+        r = pl.run(exe, a, wd, out="o_%s_%s_%d_%g.h5" % (rf, per, outstep, amp))
+        doc = pl.h5(r["h5"], maxv=20000) if r["rc"] == 0 else None
+        for ext in ("", ".cfg", ".log"):
+            try:
+                os.remove(r["h5"] + ext)
+            except OSError:
+                pass
+        return c, r, doc
+    for c, r, doc in pl.pmap(do, cases):
+        rf, per, outstep, amp, fmod = c
+        case = "process rf=%s steps-per=%s outstep=%d amplitude=%gdeg f_mod=%gHz" % (rf, per, outstep, amp, fmod)
+        rp = dict(cmd=r["cmd"])
+        if doc is None or "error" in doc:
+            res.violate("C19/process/run-failed", case, "rc=%s %s" % (r["rc"], r["log"][-200:]), replay=rp)
+            continue
+        rows = pl.rows(doc, "/RFKicks/data")
+        res.eval(case, pl.chash(case, rows), trivial=False)
+        key = "C19/process/%s/%s" % (rf, "StepsPerRevolution" if per == "rev" else "StepsPerTs")
+        if len(rows) != nsteps:
+            res.violate(key + "/record-count/outstep%s" % ("=0" if outstep == 0 else ">0"), case, "/RFKicks/data has %d rows for %d executed steps" % (len(rows), nsteps), replay=rp)
+            continue
+        dt = 1.0 / (fs * steps_per_ts)
+        sync = 0.0
+        if rf == "sin":
+            P = {k.split("@")[1]: v for k, v in doc["attrs"].items() if k.startswith("/Info/Parameters@")}
+            E0, VRF = P["BeamEnergy"], P["AcceleratingVoltage"]
+            Rb = C / (2 * math.pi * frev)
+            V0 = 1.602e-19 * (E0 / 510998.9) ** 4 / (3 * 8.854187817e-12 * Rb)
+            sync = math.asin(V0 / math.sqrt(VRF * VRF - V0 * V0))
+        A = amp / 360.0 * 2 * math.pi
+        for k, (ph, am) in enumerate(rows):
+            want = sync + A * math.sin(2 * math.pi * fmod * dt * k)
+            if abs(ph - want) > 2e-6 + 2e-5 * A or am != 1.0:
+                res.violate(key + "/waveform", case, "row %d: phase %.8g amplitude %.8g, expected %.8g and 1 (A=%.6g rad, f_mod*dt=%.6g)" % (k, ph, am, want, A, fmod * dt), replay=rp)
+                break
+    res.bounds_done.append("process level: %d runs (RF model x steps per Ts / per revolution x output cadence x modulation), /RFKicks rows and waveform" % len(cases))
 
 
 def run(res, tier):
     res.assumptions += [
         "the private PRNG is not re-seeded: with noise on, the precomputed queue itself is read back (private member) and is the reference for kicks and records",
         "at most `steps` applies per object, as in main() (the queue is exactly `steps` long)",
-        "the /RFKicks dataset of the real binary (one row per executed step for every output cadence) is covered by the main-loop model of C10/C14"]
+        "process level: pure phase modulation (no noise): recorded phase = synchronous phase + A sin(2 pi f_mod dt k) with A in radians from degrees and dt the step time"]
     c = _api.run(res, tier, ["C19_dynrf"])
+    process_level(res, tier)
     res.states = max(1, int(res.coverage.get("states", 0)))
     res.transitions = max(1, int(res.coverage.get("transitions", 0)))
     res.traces = int(res.coverage.get("transitions", 0))   # every sequence is executed on the real object
